@@ -19,5 +19,5 @@ for d in seeded/C*/; do id=$(basename $d); f=$out/$id.txt
   c=$(grep "^CHECK" $f | sed 's/CHECK \(C[0-9]*\): rc=\([0-9]\) violations=\([0-9]*\).*/\1:rc\2\/\3/' | tr '\n' ' ')
   echo "| $id | $a | $s | $dw / $dn | $c |"
 done
-} > seeded/RESULTS.md
-cat seeded/RESULTS.md
+} > /dev/shm/seedall/RESULTS.run.md
+cat /dev/shm/seedall/RESULTS.run.md
